@@ -33,6 +33,12 @@
 #define CEX_LIMIT(n) 1
 #endif
 
+#ifdef VERIF_PUBLIC_ONLY
+#define PRIV_ON 0
+#else
+#define PRIV_ON 1
+#endif
+
 #define VERIF_SWAP(T, a, b) do { T __swap_tmp = (a); (a) = (b); (b) = __swap_tmp; } while (0)
 
 static inline size_t sz_max(size_t a, size_t b) { return a < b ? b : a; }   /* std::max: (a < b) ? b : a */
